@@ -21,17 +21,32 @@ GHOSTS = ("z1", "z2")
 def generate(rng, tier):
     agents = ["A1", "A2"] + (["A3"] if rng.random() < 0.5 else [])
     n = rng.randint(3, 12 if tier == "quick" else 16)
+    # swarm: half of the histories concentrate on one computation (and one observer agent), are
+    # longer, and favour replica events and callback subscriptions, so that deep conjunctions
+    # (hosted + replicated elsewhere + followed with two callbacks + one removed) are reached
+    focus = rng.choice(COMPS) if rng.random() < 0.5 else None
+    watcher = rng.choice(agents)
+    if focus:
+        n = rng.randint(6, 16 if tier == "quick" else 20)
+    kinds = ["computation", "computation", "replica", "agent"] if not focus or rng.random() < 0.4 \
+        else ["computation", "replica", "replica", "replica", "agent"]
+
+    def pick_comp(pool=COMPS):
+        pool = list(pool)
+        if focus in pool and rng.random() < 0.8:
+            return focus
+        return rng.choice(pool)
     host = {}                     # model: computation -> hosting agent
     replicas = collections.defaultdict(set)
     ghosts = {}
     style = {}
-    subscribed = {}
+    active = {}                   # (agent, kind, item) -> set of active subscription tags
     ops = []
     for _ in range(n):
         r = rng.random()
         x = rng.choice(agents)
         if r < 0.22:
-            c = rng.choice(COMPS)
+            c = pick_comp()
             if c not in host:
                 host[c] = x
                 ops.append(["reg_comp", x, c])
@@ -45,7 +60,7 @@ def generate(rng, tier):
             cands = [c for c in host if host[c] != x]
             if not cands:
                 continue
-            c = rng.choice(cands)
+            c = pick_comp(cands)
             if x in replicas[c]:
                 replicas[c].discard(x)
                 ops.append(["unreg_replica", x, c])
@@ -60,22 +75,36 @@ def generate(rng, tier):
                 ghosts[g] = x
                 ops.append(["reg_agent", x, g])
         else:
-            kind = rng.choice(["computation", "computation", "replica", "agent"])
-            item = rng.choice(COMPS) if kind != "agent" else rng.choice(
+            if focus and rng.random() < 0.6:
+                x = watcher
+            kind = rng.choice(kinds)
+            item = pick_comp() if kind != "agent" else rng.choice(
                 [a for a in agents if a != x] + list(GHOSTS))
-            st = style.setdefault((x, kind, item), rng.choice(["plain", "cb"]))
+            st = style.setdefault((x, kind, item), rng.choice(
+                ["plain", "cb"] if not focus else ["plain", "cb", "cb"]))
             sub = rng.random() < 0.7
+            act = active.setdefault((x, kind, item), set())
+            tag = st
+            if st == "cb":
+                # a second, independent callback for the same item: removing one of them must
+                # leave the subscription (and what it taught the agent) alone
+                if sub:
+                    tag = "cb2" if ("cb" in act and rng.random() < 0.6) else "cb"
+                elif act:
+                    tag = rng.choice(sorted(act))
+            after = (act | {tag}) if sub else (set() if tag == "plain" else act - {tag})
             # as every caller in pyDcop does, replicas are followed only together with the
             # computation itself
-            if kind == "replica" and sub and not subscribed.get((x, "computation", item)):
+            if kind == "replica" and sub and not active.get((x, "computation", item)):
                 st_c = style.setdefault((x, "computation", item), rng.choice(["plain", "cb"]))
                 ops.append(["sub", x, "computation", item, st_c])
-                subscribed[(x, "computation", item)] = True
-            if kind == "computation" and not sub and subscribed.get((x, "replica", item)):
-                ops.append(["unsub", x, "replica", item, style[(x, "replica", item)]])
-                subscribed[(x, "replica", item)] = False
-            subscribed[(x, kind, item)] = sub
-            ops.append(["sub" if sub else "unsub", x, kind, item, st])
+                active.setdefault((x, "computation", item), set()).add(st_c)
+            if kind == "computation" and not after:
+                for t in sorted(active.get((x, "replica", item), ())):
+                    ops.append(["unsub", x, "replica", item, t])
+                active[(x, "replica", item)] = set()
+            active[(x, kind, item)] = after
+            ops.append(["sub" if sub else "unsub", x, kind, item, tag])
     return {"agents": agents, "ops": ops, "wait_p": rng.choice([0.0, 0.3, 0.7, 1.0])}
 
 
@@ -126,11 +155,18 @@ def consistent(case):
         elif k == "sub":
             if op[2] == "replica" and not subs.get((op[1], "computation", op[3])):
                 return False
-            subs[(op[1], op[2], op[3])] = True
+            cur = subs.setdefault((op[1], op[2], op[3]), set())
+            if cur and (op[4] == "plain") != ("plain" in cur):
+                return False                  # one style per (agent, item): plain or callbacks
+            cur.add(op[4])
         elif k == "unsub":
-            if op[2] == "computation" and subs.get((op[1], "replica", op[3])):
+            cur = subs.setdefault((op[1], op[2], op[3]), set())
+            if cur and (op[4] == "plain") != ("plain" in cur):
                 return False
-            subs[(op[1], op[2], op[3])] = False
+            after = set() if op[4] == "plain" else cur - {op[4]}
+            if op[2] == "computation" and not after and subs.get((op[1], "replica", op[3])):
+                return False
+            subs[(op[1], op[2], op[3])] = after
     return True
 
 
@@ -150,8 +186,8 @@ def execute(case, tape):
             b.drain()
             cbs = {}
 
-            def cb_for(x, kind, item):
-                key = (x, kind, item)
+            def cb_for(x, kind, item, tag):
+                key = (x, kind, item, tag)
                 if key not in cbs:
                     def cb(evt, name, where, key=key):
                         cb_log[key].append((evt, name, where if isinstance(where, str) or where is None
@@ -179,7 +215,7 @@ def execute(case, tape):
                     fn = lambda: d.unregister_agent(op[2])
                 else:
                     kind, item, st = op[2], op[3], op[4]
-                    cb = cb_for(x, kind, item) if st == "cb" else None
+                    cb = cb_for(x, kind, item, st) if st != "plain" else None
                     meth = getattr(d, ("subscribe_" if k == "sub" else "unsubscribe_") + kind)
                     if k == "sub":
                         fn = lambda: meth(item, cb)
@@ -255,48 +291,82 @@ def execute(case, tape):
         that it cancelled before subscribing again."""
         if any(op[0] == "reg_replica" and op[1] == x and op[2] == item for op in case["ops"]):
             return True
-        seq = [op[0] for op in case["ops"]
-               if op[0] in ("sub", "unsub") and op[1] == x and op[2] == kind and op[3] == item]
-        return "unsub" in seq[:-1]
+        return len(sub_periods(case, x, kind, item)) > 1
 
     def self_hosted(x, item):
         """x itself un-registered the computation AFTER the subscription that is still active
         (its own un-registration is what cancels the subscription, see KF-C20-1)."""
-        subs = [i for i, op in enumerate(case["ops"])
-                if op[0] == "sub" and op[1] == x and op[2] == "computation" and op[3] == item]
-        if not subs:
+        per = sub_periods(case, x, "computation", item)
+        if not per:
             return False
-        unsubs = [i for i, op in enumerate(case["ops"])
-                  if op[0] == "unsub" and op[1] == x and op[2] == "computation" and op[3] == item]
-        # first subscription of the still-active subscription period
-        start = min(i for i in subs if not any(i < u for u in unsubs)) if any(
-            not any(i < u for u in unsubs) for i in subs) else subs[-1]
+        start = per[-1][0]
         return any(op[0] == "unreg_comp" and op[1] == x and op[2] == item
                    for op in case["ops"][start + 1:])
-    if problems:
-        kind, detail, x, item = problems[0]
-        out["violations"].append(common.violation(
-            "view_matches_directory", detail, kind=kind,
-            subscriber_hosted_it=kind != "agent" and self_hosted(x, item),
-            stale_local_registration=stale_possible(x, kind, item), **feats))
-    elif cb_problem:
-        out["violations"].append(common.violation(
-            "last_callback_matches_state", cb_problem[1], kind=cb_problem[0],
-            subscriber_hosted_it=cb_problem[0] != "agent" and self_hosted(cb_problem[2], cb_problem[3]),
-            stale_local_registration=stale_possible(cb_problem[2], cb_problem[0], cb_problem[3]),
-            **feats))
+    # every distinct class of disagreement of the run is reported (a known class must not hide
+    # an unknown one found in the same history)
+    seen = set()
+    for kind, detail, x, item in problems:
+        f = dict(kind=kind, subscriber_hosted_it=kind != "agent" and self_hosted(x, item),
+                 stale_local_registration=stale_possible(x, kind, item))
+        if tuple(sorted(f.items())) in seen:
+            continue
+        seen.add(tuple(sorted(f.items())))
+        out["violations"].append(common.violation("view_matches_directory", detail,
+                                                  **dict(f, **feats)))
+    for cbp in cb_problem:
+        if any(p[0] == cbp[0] and p[2] == cbp[2] and p[3] == cbp[3] for p in problems):
+            continue                    # consequence of the view disagreement reported above
+        f = dict(kind=cbp[0], subscriber_hosted_it=cbp[0] != "agent" and self_hosted(cbp[2], cbp[3]),
+                 stale_local_registration=stale_possible(cbp[2], cbp[0], cbp[3]))
+        if ("cb",) + tuple(sorted(f.items())) in seen:
+            continue
+        seen.add(("cb",) + tuple(sorted(f.items())))
+        out["violations"].append(common.violation("last_callback_matches_state", cbp[1],
+                                                  **dict(f, **feats)))
     out["stats"]["views_compared"] += compared
     out["stats"]["callbacks_fired"] += sum(len(v) for v in cb_log.values())
     out["nontrivial"] = compared > 0 and changed_after > 0 and sim.stats["threads"] >= 3
     return out
 
 
-def last_sub_state(case):
-    """(agent, kind, item) -> (subscribed?, style, index of the last sub op)"""
-    st = {}
+def sub_periods(case, x, kind, item):
+    """Subscription periods of (x, kind, item): list of [start index, end index or None, tags]
+    where tags maps each callback tag still active at the end of the period to the index of its
+    last sub op.  A period ends when the last tag is removed (or with an un-subscription
+    without callback)."""
+    periods, cur = [], None
     for i, op in enumerate(case["ops"]):
-        if op[0] in ("sub", "unsub"):
-            st[(op[1], op[2], op[3])] = (op[0] == "sub", op[4], i)
+        if op[0] not in ("sub", "unsub") or (op[1], op[2], op[3]) != (x, kind, item):
+            continue
+        if op[0] == "sub":
+            if cur is None:
+                cur = [i, None, {}]
+                periods.append(cur)
+            cur[2][op[4]] = i
+        elif cur is not None:
+            if op[4] == "plain":
+                cur[2].clear()
+            else:
+                cur[2].pop(op[4], None)
+            if not cur[2]:
+                cur[1] = i
+                cur = None
+    return periods
+
+
+def last_sub_state(case):
+    """(agent, kind, item) -> (subscribed?, active tags -> index of their sub op,
+    index of the last sub/unsub op, start of the current period)"""
+    st = {}
+    keys = {(op[1], op[2], op[3]) for op in case["ops"] if op[0] in ("sub", "unsub")}
+    for key in keys:
+        per = sub_periods(case, *key)
+        last = max(i for i, op in enumerate(case["ops"])
+                   if op[0] in ("sub", "unsub") and (op[1], op[2], op[3]) == key)
+        if per and per[-1][1] is None:
+            st[key] = (True, dict(per[-1][2]), last, per[-1][0])
+        else:
+            st[key] = (False, {}, last, None)
     return st
 
 
@@ -305,7 +375,7 @@ def compare(case, views, directory, ddisc):
     problems, compared, changed_after = [], 0, 0
     subs = last_sub_state(case)
     final = {}
-    for (x, kind, item), (on, style, idx) in sorted(subs.items()):
+    for (x, kind, item), (on, tags, idx, _start) in sorted(subs.items()):
         if not on:
             continue
         d = views[x]
@@ -361,8 +431,10 @@ def check_callbacks(case, issued, cb_log, cmp):
     final = cmp[3]
     subs = last_sub_state(case)
     drained_before = dict(issued)
-    for key, (on, style, idx) in sorted(subs.items()):
-        if not on or style != "cb" or key not in final:
+    found = []
+    for key, tag, idx in sorted((key, tag, i) for key, (on, tags, _l, _s) in subs.items() if on
+                                for tag, i in tags.items()):
+        if tag == "plain" or key not in final:
             continue
         x, kind, item = key
         # a change op issued after a drain that followed the subscription
@@ -378,20 +450,21 @@ def check_callbacks(case, issued, cb_log, cmp):
                 changed = True
         if not changed or kind == "replica":
             continue
-        events = cb_log.get(key, [])
+        events = cb_log.get(key + (tag,), [])
         want = final[key]
         if not events:
-            return (kind, f"{x} subscribed to {kind} {item} with a callback, the item changed "
-                    f"afterwards (final state {want!r}) but the callback never fired", x, item)
+            found.append((kind, f"{x} subscribed to {kind} {item} with a callback, the item changed "
+                          f"afterwards (final state {want!r}) but the callback never fired", x, item))
+            continue
         last = events[-1]
         ok = (last[0].endswith("_added") and want is not None and
               (kind == "agent" or last[2] == want)) or \
              (last[0].endswith("_removed") and want is None)
         if not ok:
-            return (kind, f"{x}'s callback for {kind} {item} last fired {last[:3]} but the final "
-                    f"directory state is {want!r} (all events {[(e[0], e[2]) for e in events]})",
-                    x, item)
-    return None
+            found.append((kind, f"{x}'s callback for {kind} {item} last fired {last[:3]} but the "
+                          f"final directory state is {want!r} (all events "
+                          f"{[(e[0], e[2]) for e in events]})", x, item))
+    return found
 
 
 RUN_TIMEOUT_S = 120
